@@ -242,6 +242,8 @@ func VH_C19_step() {
 	want := s.spec(before, 7)
 	c19Equal(oa, want, "option-form-vs-spec")
 	c19Equal(ob, want, "builder-form-vs-spec")
+	// configuring one node leaves every other node alone: fresh nodes still have the defaults
+	c19FreshDefaults()
 	vCover("step")
 }
 
@@ -260,6 +262,8 @@ func VH_C19_ctor() {
 	a := NewNode(opts...)
 	c19Equal(c19Observe(a), want, "constructor-options-vs-spec")
 	c19Equal(c19Observe(b), want, "chained-builder-vs-spec")
+	// configuring one node leaves every other node alone: fresh nodes still have the defaults
+	c19FreshDefaults()
 	vCover("ctor")
 }
 
@@ -400,7 +404,15 @@ func VH_C19_batchCtor() {
 	a := NewBatchNode(opts...)
 	c19BEqual(c19BObserve(b), want, "batch-chained-builder-vs-spec")
 	c19BEqual(c19BObserve(a), want, "batch-constructor-options-vs-spec")
+	// configuring one node leaves every other node alone: fresh nodes still have the defaults
+	c19FreshDefaults()
 	vCover("batch-ctor")
+}
+
+func c19FreshDefaults() {
+	fn, fb := NewNode(), NewBatchNode()
+	vAssert(fn.GetMaxRetries() == 1 && fn.GetWait() == 0 && fn.GetBatchConcurrency() == 0 && fn.GetBatchErrorHandling() == "continue", "other-nodes-keep-the-documented-defaults")
+	vAssert(fb.GetMaxRetries() == 1 && fb.GetWait() == 0 && fb.GetBatchConcurrency() == 0 && fb.GetBatchErrorHandling() == "continue", "other-nodes-keep-the-documented-defaults")
 }
 
 func VH_C19_defaults() {
